@@ -53,7 +53,10 @@ Definition parse_transaction (s : list Z) : ptx_res (list Z * tx) :=
   | PtxFail => PtxFail | PtxExn => PtxExn
   | PtxOk (amounts, hexpart) =>
       match parse_tx hexpart with
-      | PtxOk t => PtxOk (pad_amounts (length (tx_vin t)) amounts, t)
+      | PtxOk t => match tx_vin t with
+                   | [] => PtxFail                      (* a spending transaction without inputs is refused *)
+                   | _ => PtxOk (pad_amounts (length (tx_vin t)) amounts, t)
+                   end
       | PtxFail => PtxFail | PtxExn => PtxExn
       end
   end.
